@@ -36,6 +36,7 @@ ObsInit == [call |-> EmptyFun, sub |-> EmptyFun,
             inWriter |-> EmptyFun,   \* library connection -> writer kind currently inside its write-lock section ("" if none)
             lockViol |-> 0,          \* overlapping write sections / sections entered without the lock held
             retained |-> 0,          \* library goroutines still labelled with a dead server connection at quiescence
+            revNotifBad |-> {},                        \* reverse calls made by the handler of a notification that got no answer from the (connected) client
             revBlocked |-> {}, revWrong |-> {},       \* reverse calls that blocked (or succeeded) after their client's connection was gone
             healthyPhase |-> TRUE,   \* keepalive scenarios: no fault has been injected yet
             keepaliveViol |-> {},    \* clauses violated in a keepalive scenario
@@ -113,6 +114,7 @@ ObsStep(o, e) ==
                                        \cup (IF e.redial THEN {} ELSE {"no-redial-after-silent-peer"})]
     [] e.ev = "ConnGoroutines" -> [o EXCEPT !.retained = @ + e.n + (IF e.connEnded THEN 0 ELSE 1)]
     [] e.ev = "RevStart" -> [o EXCEPT !.revWrong = IF Call(o, e.call).cli # "" /\ Call(o, e.call).cli # e.peer THEN @ \cup {e.call} ELSE @]
+    [] e.ev = "RevNotifyResult" -> [o EXCEPT !.revNotifBad = IF e.ok THEN @ ELSE @ \cup {e.call}]
     [] e.ev = "RevCallEnd" -> [o EXCEPT !.revBlocked = IF ~e.failed THEN @ \cup {e.call} ELSE @]
     [] e.ev = "ProcessExit" -> [o EXCEPT !.crashed = TRUE]
     [] e.ev = "CtxMissing"  -> [o EXCEPT !.ctxMissing = @ \cup {e.call}]
@@ -217,6 +219,7 @@ Always_C15(o) ==
 \* (it neither blocks nor succeeds); without the server option, or over HTTP, there is no reverse client
 Always_C16(o) ==
   {<<"C16", "reverse-call-blocked-after-connection-loss", t>> : t \in o.revBlocked}
+  \cup {<<"C16", "reverse-call-of-a-notification-handler-unanswered", t>> : t \in o.revNotifBad}
   \cup {<<"C16", "reverse-call-answered-by-another-client:" \o o.call[t].detail, t>> :
           t \in {t \in Calls(o) : o.call[t].kind = "callback" /\ o.call[t].outcome = "ok" /\ o.call[t].detail \notin {o.call[t].cli, "no-reverse-client"}}}
   \cup {<<"C16", "reverse-client-presence:" \o o.call[t].detail, t>> :
